@@ -235,8 +235,8 @@ def ans_proofs(ctx):
         st = ctx.tlc("MC_AnsBridge", {"W": w, "S": s, "MaxBulk": mb}, invariants=["Bridge"], label="MC_AnsBridge_%d_%d" % (w, s))
         if st["spec_violation"]:
             raise core.ToolError("MC_AnsBridge: Ans.tla is not the step proved in spec/proofs at W=%d S=%d:\n%s" % (w, s, st.get("counterexample", "")))
-    ctx.require("tlaps_obligations_proved", 780)
-    ctx.require("tlaps_AnsMessage", 320)
+    ctx.require("tlaps_obligations_proved", 800)
+    ctx.require("tlaps_AnsMessage", 340)
 
 
 def big_equiv(ctx):
